@@ -403,24 +403,44 @@ package scipipe
 //@ define freshRecord(a *AuditInfo) bool = fresh(a) && fresh(a.Upstream) && fresh(a.OutFiles) && fresh(a.Tags) && a.Upstream != nil && a.OutFiles != nil && a.Tags != nil && a.Tags != a.OutFiles && a.Tags != a.Params && a.OutFiles != a.Params
 //@ define outFilesRecorded(t *Task, a *AuditInfo) bool = (forall n string :: n in a.OutFiles <==> n in t.OutIPs) && (forall n string :: n in t.OutIPs ==> a.OutFiles[n] == t.OutIPs[n].path)
 
+//@ define isJoin(t *Task, i string) bool = t.portInfos[i].join
+//@ define inputsDistinct(t *Task) bool = (forall i1 string, i2 string :: i1 in t.InIPs && i2 in t.InIPs && i1 != i2 && !isJoin(t, i1) && !isJoin(t, i2) ==> t.InIPs[i1].path != t.InIPs[i2].path) && (forall i1 string, i2 string, j int :: i1 in t.InIPs && i2 in t.InIPs && !isJoin(t, i1) && isJoin(t, i2) && 0 <= j && j < len(t.subStreamIPs[i2]) ==> t.subStreamIPs[i2][j].path != t.InIPs[i1].path) && (forall i1 string, i2 string, j1 int, j2 int :: i1 in t.InIPs && i2 in t.InIPs && isJoin(t, i1) && isJoin(t, i2) && 0 <= j1 && j1 < len(t.subStreamIPs[i1]) && 0 <= j2 && j2 < len(t.subStreamIPs[i2]) && (i1 != i2 || j1 != j2) ==> t.subStreamIPs[i1][j1].path != t.subStreamIPs[i2][j2].path)
+//@ define linkedPlain(t *Task, a *AuditInfo, i string) bool = t.InIPs[i].path in a.Upstream && a.Upstream[t.InIPs[i].path] == t.InIPs[i].auditInfo && t.InIPs[i].auditInfo != nil
+//@ define linkedMember(t *Task, a *AuditInfo, i string, j int) bool = t.subStreamIPs[i][j].path in a.Upstream && a.Upstream[t.subStreamIPs[i][j].path] == t.subStreamIPs[i][j].auditInfo && t.subStreamIPs[i][j].auditInfo != nil
+//@ define upstreamLinked(t *Task, a *AuditInfo) bool = (forall i string :: i in t.InIPs && !isJoin(t, i) ==> linkedPlain(t, a, i)) && (forall i string, j int :: i in t.InIPs && isJoin(t, i) && 0 <= j && j < len(t.subStreamIPs[i]) ==> linkedMember(t, a, i, j))
+
 //@ func (*Task).writeAuditLogs(t, startTime, finishTime)
 //@   props C01 C10
 //@   requires wf: wfTask(t) && t.Process != nil && t.InIPs != nil
 //@   modifies fresh, BaseIP.auditInfo, locked, effCreated, effMkdir, fsEpoch, map[string]string, map[string]*AuditInfo
 //@   ensures only-audit-files[C01]: forall p string :: effCreated[p] && !old(effCreated)[p] ==> auditFileOf(t, p)
 //@   ensures every-output-carries-the-record[C10]: exists a *AuditInfo :: recordOf(t, a, startTime, finishTime) && outFilesRecorded(t, a) && (forall o string :: o in t.OutIPs ==> t.OutIPs[o].auditInfo == a)
+//@   ensures upstream-records-linked-by-path[C10,C11]: old(inputsDistinct(t)) ==> exists a *AuditInfo :: recordOf(t, a, startTime, finishTime) && (forall o string :: o in t.OutIPs ==> t.OutIPs[o].auditInfo == a) && ((exists o string :: o in t.OutIPs) ==> upstreamLinked(t, a))
 //@   ensures audit-file-written-for-every-output[C10]: forall o string :: o in t.OutIPs ==> effCreated[t.OutIPs[o].path + ".audit.json"]
 //@   loop 0 invariant rec: recordOf(t, auditInfo, startTime, finishTime) && freshRecord(auditInfo)
+//@   loop 0 invariant distinct: old(inputsDistinct(t)) ==> inputsDistinct(t)
+//@   loop 0 invariant vis: forall i string :: $visited[i] ==> i in t.InIPs
+//@   loop 0 invariant linked-plain: old(inputsDistinct(t)) ==> forall i string :: $visited[i] && !isJoin(t, i) ==> linkedPlain(t, auditInfo, i)
+//@   loop 0 invariant linked-join: old(inputsDistinct(t)) ==> forall i string, j int :: $visited[i] && isJoin(t, i) && 0 <= j && j < len(t.subStreamIPs[i]) ==> linkedMember(t, auditInfo, i, j)
 //@   loop 1 invariant rec: recordOf(t, auditInfo, startTime, finishTime) && freshRecord(auditInfo)
+//@   loop 1 invariant distinct: old(inputsDistinct(t)) ==> inputsDistinct(t)
+//@   loop 1 invariant vis: forall i string :: $visited0[i] ==> i in t.InIPs
+//@   loop 1 invariant cur: $visited0[inpName] && isJoin(t, inpName) && 0 <= $i && $i <= len(t.subStreamIPs[inpName])
+//@   loop 1 invariant linked-plain: old(inputsDistinct(t)) ==> forall i string :: $visited0[i] && !isJoin(t, i) ==> linkedPlain(t, auditInfo, i)
+//@   loop 1 invariant linked-join: old(inputsDistinct(t)) ==> forall i string, j int :: $visited0[i] && i != inpName && isJoin(t, i) && 0 <= j && j < len(t.subStreamIPs[i]) ==> linkedMember(t, auditInfo, i, j)
+//@   loop 1 invariant linked-cur: old(inputsDistinct(t)) ==> forall j int :: 0 <= j && j < $i ==> linkedMember(t, auditInfo, inpName, j)
 //@   loop 2 invariant rec: recordOf(t, auditInfo, startTime, finishTime) && freshRecord(auditInfo)
+//@   loop 2 invariant linked: old(inputsDistinct(t)) ==> upstreamLinked(t, auditInfo)
 //@   loop 2 invariant vis: forall n string :: $visited[n] ==> n in t.OutIPs
 //@   loop 2 invariant outfiles: (forall n string :: n in auditInfo.OutFiles <==> $visited[n]) && (forall n string :: $visited[n] ==> auditInfo.OutFiles[n] == t.OutIPs[n].path)
 //@   loop 3 invariant rec: recordOf(t, auditInfo, startTime, finishTime) && freshRecord(auditInfo) && outFilesRecorded(t, auditInfo)
+//@   loop 3 invariant linked: old(inputsDistinct(t)) ==> upstreamLinked(t, auditInfo)
 //@   loop 3 invariant vis: forall k string :: $visited[k] ==> k in t.OutIPs
 //@   loop 3 invariant attached: forall k string :: $visited[k] ==> t.OutIPs[k].auditInfo == auditInfo && effCreated[t.OutIPs[k].path + ".audit.json"]
 //@   loop 3 invariant only-audit-files: forall p string :: effCreated[p] && !old(effCreated)[p] ==> auditFileOf(t, p)
 //@   loop 3 invariant grows: forall p string :: old(effCreated)[p] ==> effCreated[p]
 //@   loop 4 invariant rec: recordOf(t, auditInfo, startTime, finishTime) && freshRecord(auditInfo) && outFilesRecorded(t, auditInfo) && oip.auditInfo == auditInfo && oip != nil
+//@   loop 4 invariant linked: old(inputsDistinct(t)) ==> upstreamLinked(t, auditInfo)
 //@   loop 4 invariant attached: forall k string :: $visited3[k] && t.OutIPs[k] != oip ==> t.OutIPs[k].auditInfo == auditInfo && effCreated[t.OutIPs[k].path + ".audit.json"]
 //@   loop 4 invariant cur: exists k string :: k in t.OutIPs && t.OutIPs[k] == oip
 //@   loop 4 invariant only-audit-files: forall p string :: effCreated[p] && !old(effCreated)[p] ==> auditFileOf(t, p)
